@@ -47,10 +47,15 @@ _add('meta_perm', ['std::fs::File::set_permissions', 'std::os::unix::fs::fchown'
 _add('meta_times', ['std::fs::File::set_times', 'std::fs::File::set_modified', 'std::fs::set_times',
                     'std::fs::set_times_nofollow'], handle=0)
 _add('open_ro', ['std::fs::File::open', 'std::fs::File::open_buffered', 'std::fs::read', 'std::fs::read_to_string'], path=0)
-_add('open_rw', ['std::fs::OpenOptions::open', 'std::fs::File::options', 'std::fs::OpenOptions::new',
-                 'std::fs::OpenOptions::write', 'std::fs::OpenOptions::append', 'std::fs::OpenOptions::create',
-                 'std::fs::OpenOptions::create_new', 'std::fs::OpenOptions::truncate',
-                 'std::os::unix::fs::OpenOptionsExt::mode', 'std::os::unix::fs::OpenOptionsExt::custom_flags'], path=1)
+# OpenOptions: the builder calls are pure; `open` is read-write unless the builder term shows only read(true)
+# (decided per event by classify_event below; the call graph conservatively says open_rw)
+_add('open_rw', ['std::fs::OpenOptions::open'], path=1)
+_add('pure', ['std::fs::File::options', 'std::fs::OpenOptions::new', 'std::fs::OpenOptions::read',
+              'std::fs::OpenOptions::write', 'std::fs::OpenOptions::append', 'std::fs::OpenOptions::create',
+              'std::fs::OpenOptions::create_new', 'std::fs::OpenOptions::truncate',
+              'std::os::unix::fs::OpenOptionsExt::mode', 'std::os::unix::fs::OpenOptionsExt::custom_flags',
+              '<std::fs::OpenOptions as std::os::unix::fs::OpenOptionsExt>::mode',
+              '<std::fs::OpenOptions as std::os::unix::fs::OpenOptionsExt>::custom_flags'])
 _add('truncate', ['std::fs::File::set_len'], handle=0)
 _add('sync', ['std::fs::File::sync_all', 'std::fs::File::sync_data'], handle=0)
 _add('probe', ['std::fs::File::metadata', 'std::fs::DirEntry::metadata', 'std::fs::DirEntry::file_type'], handle=0)
@@ -195,3 +200,32 @@ def classify(np):
     if np.startswith(SENSITIVE_PREFIXES):
         return 'UNCLASSIFIED', {}
     return None, {}
+
+
+WRITE_FLAGS = ('std::fs::OpenOptions::write', 'std::fs::OpenOptions::append', 'std::fs::OpenOptions::create',
+               'std::fs::OpenOptions::create_new', 'std::fs::OpenOptions::truncate')
+
+
+def classify_event(ev):
+    """class of an explored event; like classify(path) but OpenOptions::open is read-only when the builder
+    term carries no write-ish flag set to true."""
+    cls, roles = classify(ev['path'])
+    if ev['path'] == 'std::fs::OpenOptions::open' and ev.get('args'):
+        import values
+        from values import VAL
+        opts = ev['args'][0]
+        writeish = False
+        unknown = False
+        if opts is None:
+            unknown = True
+        else:
+            for s in values.subs(opts):
+                t = VAL[s]
+                if t[0] == 'mu' and t[1] in WRITE_FLAGS:
+                    flag = [VAL[a] for a in t[3:]]
+                    if any(f == ('int', '1') for f in flag) or not all(f[0] == 'int' for f in flag):
+                        writeish = True
+                if t[0] == 'sym' and t[1] == 'param':
+                    unknown = True
+        return ('open_rw' if (writeish or unknown) else 'open_ro'), roles
+    return cls, roles
